@@ -20,6 +20,9 @@ def DataFrame_count_decorators : List String := []
 /-- the signature of dataiter/data_frame.py: DataFrame.count: parameters in order, with the source text of their defaults -/
 def DataFrame_count_signature : List String := ["self", "*colnames"]
 
+/-- the calls of dataiter/data_frame.py: DataFrame.count in the order Python makes them along the source text -/
+def DataFrame_count_call_order : List String := ["self.copy", "self.copy().group_by", "dataiter.count", "self.copy().group_by(*colnames).aggregate"]
+
 /-- dataiter/data_frame.py: DataFrame.group_by (sha256 of the function source: 2edbc614a7896e6a) -/
 def DataFrame_group_by (truth : Term → Bool) : Out :=
   let attr0_1' : Term := (Term.app "tuple()" [(Term.sym "colnames")]);
@@ -31,6 +34,9 @@ def DataFrame_group_by_decorators : List String := []
 
 /-- the signature of dataiter/data_frame.py: DataFrame.group_by: parameters in order, with the source text of their defaults -/
 def DataFrame_group_by_signature : List String := ["self", "*colnames"]
+
+/-- the calls of dataiter/data_frame.py: DataFrame.group_by in the order Python makes them along the source text -/
+def DataFrame_group_by_call_order : List String := ["tuple"]
 
 /-- dataiter/data_frame.py: DataFrame.aggregate (sha256 of the function source: b899e50be4539025) -/
 def DataFrame_aggregate (truth : Term → Bool) : Out :=
@@ -66,6 +72,9 @@ def DataFrame_aggregate_decorators : List String := []
 /-- the signature of dataiter/data_frame.py: DataFrame.aggregate: parameters in order, with the source text of their defaults -/
 def DataFrame_aggregate_signature : List String := ["self", "**colname_function_pairs"]
 
+/-- the calls of dataiter/data_frame.py: DataFrame.aggregate in the order Python makes them along the source text -/
+def DataFrame_aggregate_call_order : List String := ["dict.fromkeys", "self.sort", "np.arange", "data.unique", "data.unique(*group_colnames).select", "np.split", "getattr", "colname_function_pairs.values", "any", "len", "range", "Vector.fast", "map", "Vector.fast", "np.repeat", "colname_function_pairs.items", "getattr", "function", "len", "range", "len", "DataFrameColumn.fast", "data._view_rows", "function", "stat.unselect"]
+
 /-- dataiter/data_frame.py: DataFrame.split (sha256 of the function source: aa9db7543e433bf3) -/
 def DataFrame_split (truth : Term → Bool) : Out :=
   let data' : Term := (Term.app ".select" [(Term.sym "self"), (Term.app "*" [(Term.sym "by")])]);
@@ -82,6 +91,9 @@ def DataFrame_split_decorators : List String := []
 
 /-- the signature of dataiter/data_frame.py: DataFrame.split: parameters in order, with the source text of their defaults -/
 def DataFrame_split_signature : List String := ["self", "*by"]
+
+/-- the calls of dataiter/data_frame.py: DataFrame.split in the order Python makes them along the source text -/
+def DataFrame_split_call_order : List String := ["self.select", "np.arange", "dict.fromkeys", "data.sort", "np.arange", "data.unique", "np.split"]
 
 /-- dataiter/data_frame.py: DataFrame.modify (sha256 of the function source: a907c661dc04b66c) -/
 def DataFrame_modify (truth : Term → Bool) : Out :=
@@ -103,5 +115,8 @@ def DataFrame_modify_decorators : List String := ["deco.new_from_generator"]
 
 /-- the signature of dataiter/data_frame.py: DataFrame.modify: parameters in order, with the source text of their defaults -/
 def DataFrame_modify_signature : List String := ["self", "**colname_value_pairs"]
+
+/-- the calls of dataiter/data_frame.py: DataFrame.modify in the order Python makes them along the source text -/
+def DataFrame_modify_call_order : List String := ["self.items", "column.copy", "self.split", "np.concatenate", "np.argsort", "self._view_rows", "colname_value_pairs.items", "callable", "ValueError", "function", "DataFrameColumn", "np.concatenate", "colname_value_pairs.items", "callable", "value", "self._reconcile_column", "self._reconcile_column(value).copy"]
 
 end DI.Gen
